@@ -76,9 +76,12 @@ def check(F, rep, tier):
             rep.bad("R11.3", "unrecognised-shape:LocalSegment::cmp", str(e), h.where())
     eq_via_cmp(F, rep, "R11.4", PEP, f)
     # derived PartialEq on LocalSegment is structural; check that PEP440 equality does not use it for `local` outside cmp
-    # ---- R11.5 spelling funnel: implicit numbers compared as 0 in the term AND filled by normalize ---------
-    for x in ("pre_number", "post_number", "dev_number"):
-        pass
+    # ---- R11.5 spelling funnel: every spelling must reach the comparator at all - the parser adds no accept/reject
+    # decision of its own (leading zeros, separators, labels) and loses no number (shared rules with C09)
+    import parsers
+    fs = F.find("<impl std::str::FromStr for crate::version::pep440::core::PEP440>::from_str")
+    if rep.anchor("R11.5", "<PEP440 as FromStr>::from_str", fs):
+        parsers.analyse_from_str(F, fs[0], rep, "R11.5", "crate::version::pep440::parser::")
     rep.extra["abstract_assignments_evaluated"] = evals
     return core.finish(rep, explanation=EXPL, assumptions=ASSUME, trusted=TRUST)
 
